@@ -33,10 +33,15 @@ def step(ctx, cfg):
     pos = [[H[k][i] % w for i in range(d)] for k in range(K)]
     total = ctx.sum(Tc)
     ctx.assume(ctx.le(total, IMAX - 1))
-    for i in range(d):
-        for col in range(w):
-            c._bins[i * w + col] = _inv_cell(ctx, pos, Tc, i, col)
-    c._CountMinSketch__elements_added = total
+    if ctx.sym:
+        for i in range(d):
+            for col in range(w):
+                c._bins[i * w + col] = _inv_cell(ctx, pos, Tc, i, col)
+        c._CountMinSketch__elements_added = total
+    else:       # replay: the pre-state is re-created through the public API (one add per key with its true count)
+        for k in range(K):
+            if Tc[k] > 0:
+                c.add_alt(H[k], Tc[k])
     n = ctx.int("n", 1, IMAX)
     if op == "add":
         ctx.assume(ctx.le(total + n, IMAX - 1))
